@@ -60,12 +60,14 @@ func TestFaultError(t *testing.T) {
 	mustExec(t, pool, `INSERT INTO fe VALUES ($1)`, 1)
 
 	// inside a transaction the block becomes failed: fault on the 2nd statement
+	// (statements without arguments use the simple protocol: exactly one
+	// round trip each, whatever the connection's statement cache holds)
 	s.SetFault(s.RoundTrips()+3, FaultError) // begin, insert 10, insert 11
 	err = pool.BeginFunc(ctx, func(tx pgx.Tx) error {
-		if _, err := tx.Exec(ctx, `INSERT INTO fe VALUES ($1)`, 10); err != nil {
+		if _, err := tx.Exec(ctx, `INSERT INTO fe VALUES (10)`); err != nil {
 			return err
 		}
-		_, err := tx.Exec(ctx, `INSERT INTO fe VALUES ($1)`, 11)
+		_, err := tx.Exec(ctx, `INSERT INTO fe VALUES (11)`)
 		return err
 	})
 	wantCode(t, err, codeQueryCanceled)
@@ -73,7 +75,7 @@ func TestFaultError(t *testing.T) {
 
 	// fault on COMMIT: the commit is not executed
 	s.SetFault(s.RoundTrips()+3, FaultError) // begin, insert, commit
-	err = pool.BeginFunc(ctx, func(tx pgx.Tx) error { _, err := tx.Exec(ctx, `INSERT INTO fe VALUES ($1)`, 20); return err })
+	err = pool.BeginFunc(ctx, func(tx pgx.Tx) error { _, err := tx.Exec(ctx, `INSERT INTO fe VALUES (20)`); return err })
 	if err == nil || !s.FaultFired() {
 		t.Fatalf("err=%v fired=%v", err, s.FaultFired())
 	}
@@ -108,10 +110,10 @@ func TestFaultDropBefore(t *testing.T) {
 	// in a transaction: everything done so far is rolled back
 	s.SetFault(s.RoundTrips()+3, FaultDropBefore)
 	err := pool.BeginFunc(ctx, func(tx pgx.Tx) error {
-		if _, err := tx.Exec(ctx, `INSERT INTO fd VALUES ($1)`, 10); err != nil {
+		if _, err := tx.Exec(ctx, `INSERT INTO fd VALUES (10)`); err != nil {
 			return err
 		}
-		_, err := tx.Exec(ctx, `INSERT INTO fd VALUES ($1)`, 11)
+		_, err := tx.Exec(ctx, `INSERT INTO fd VALUES (11)`)
 		return err
 	})
 	if err == nil || !s.FaultFired() {
@@ -120,7 +122,7 @@ func TestFaultDropBefore(t *testing.T) {
 	wantRows(t, pool, []string{"0"}, `SELECT k FROM fd`)
 	// drop on the COMMIT round trip: not committed
 	s.SetFault(s.RoundTrips()+3, FaultDropBefore)
-	err = pool.BeginFunc(ctx, func(tx pgx.Tx) error { _, err := tx.Exec(ctx, `INSERT INTO fd VALUES ($1)`, 20); return err })
+	err = pool.BeginFunc(ctx, func(tx pgx.Tx) error { _, err := tx.Exec(ctx, `INSERT INTO fd VALUES (20)`); return err })
 	if err == nil {
 		t.Fatal("expected error")
 	}
@@ -141,7 +143,7 @@ func TestFaultDropAfter(t *testing.T) {
 	// statement inside a transaction: executed, then the connection drops
 	// and the transaction is rolled back
 	s.SetFault(s.RoundTrips()+2, FaultDropAfter)
-	err := pool.BeginFunc(ctx, func(tx pgx.Tx) error { _, err := tx.Exec(ctx, `INSERT INTO fa VALUES ($1)`, 10); return err })
+	err := pool.BeginFunc(ctx, func(tx pgx.Tx) error { _, err := tx.Exec(ctx, `INSERT INTO fa VALUES (10)`); return err })
 	if err == nil {
 		t.Fatal("expected error")
 	}
@@ -149,7 +151,7 @@ func TestFaultDropAfter(t *testing.T) {
 	// COMMIT applied, then the connection drops: BeginFunc reports an error
 	// although the data is committed
 	s.SetFault(s.RoundTrips()+3, FaultDropAfter)
-	err = pool.BeginFunc(ctx, func(tx pgx.Tx) error { _, err := tx.Exec(ctx, `INSERT INTO fa VALUES ($1)`, 20); return err })
+	err = pool.BeginFunc(ctx, func(tx pgx.Tx) error { _, err := tx.Exec(ctx, `INSERT INTO fa VALUES (20)`); return err })
 	if err == nil || !s.FaultFired() {
 		t.Fatalf("err=%v fired=%v", err, s.FaultFired())
 	}
@@ -269,6 +271,10 @@ func TestListenTCP(t *testing.T) {
 	if err == nil {
 		t.Fatal("expected the blocked statement to be cancelled")
 	}
+	// pgx reports the timeout at once and sends the CancelRequest in the
+	// background; as with PostgreSQL the statement is only stopped when that
+	// request arrives, so give it time before releasing the lock.
+	time.Sleep(300 * time.Millisecond)
 	tx.Rollback(ctx)
 	wantRows(t, pool, []string{"1|\\x68656c6c6f"}, `SELECT * FROM tcp`)
 	noUnsupported(t, s)
